@@ -1254,7 +1254,13 @@ def lower14(ctx) -> List[Ob]:
         last_store_line = max(A.lineno(s) for s in stores)
         body_txt = [A.unparse(s) for s in g.body]
         shrinks = any(t in (f"{x}.pop()", f"{x}.pop(1)", f"{x}.pop(-1)", f"del {x}[1]", f"del {x}[-1]", f"{x}[:] = {x}[:1]", f"del {x}[1:]") for t in body_txt for x in x_alts)
-        wraps = any(isinstance(s, ast.Assign) and A.unparse(s.targets[0]).endswith(".instructions[-1]") and isinstance(s.value, ast.Call) and (A.dotted(s.value.func) or "") == "ast.Expr" and s.value.args and A.unparse(s.value.args[0]) == A.unparse(s.targets[0]) for s in g.body)
+        def _wrapped_arg(s):
+            a0 = s.value.args[0]
+            if isinstance(a0, ast.Name):
+                a0 = see_through(ctx, fn, a0) or a0  # `test = b.instructions[-1]; b.instructions[-1] = ast.Expr(test)`
+            return A.unparse(a0)
+
+        wraps = any(isinstance(s, ast.Assign) and A.unparse(s.targets[0]).endswith(".instructions[-1]") and isinstance(s.value, ast.Call) and (A.dotted(s.value.func) or "") == "ast.Expr" and s.value.args and _wrapped_arg(s) == A.unparse(s.targets[0]) for s in g.body)
         # the check sits in a loop that also contains the renames (the per-block loop; the renames may sit in an
         # inner loop over the positions)
         same_loop = any(isinstance(lp, ast.For) and any(a is lp for a in A.ancestors(g)) for lp in A.ancestors(stores[-1]))
